@@ -1,3 +1,3 @@
-From MptV Require Import Base.Mem Cobs.CobsModel Cobs.DecModel Cobs.DecRun.
+From MptV Require Import Base.Mem Cobs.CobsModel Cobs.DecModel Cobs.DecRun Cobs.TextModel.
 Require Import ExtrOcamlBasic.
-Extraction "cobsdec_model.ml" drun dsrun mkw dinit v_cobs v_cobs_r v_zpe v_zpe_r.
+Extraction "cobsdec_model.ml" drun dsrun mkw dinit v_cobs v_cobs_r v_zpe v_zpe_r cmd_call mkt cmd_header.
